@@ -45,8 +45,9 @@ Init == /\ now = 0 /\ status = "Ready" /\ cur = Initial /\ reqStart = 0 /\ lastS
 \* the value a valid reference clock reports at time t (true time + 100 s), possibly skewed
 RefValues(t) == {(t \div 1000) + 100, (t \div 1000) + 107, Inv}
 
-\* keepAlive(): getNow() at time t
-Ticks(t) == IF isInit THEN (t - prev) \div 1000 ELSE 0
+\* keepAlive(): getNow() at time t. The clock keeps only the low 16 bits of the millisecond counter: whole seconds of the
+\* elapsed time *modulo 65536 ms* are folded in (exact as long as the clock is looked at every 65.535 s, the documented bound)
+Ticks(t) == IF isInit THEN ((t - prev) % 65536) \div 1000 ELSE 0
 \* syncNow(v) at time t, after keepAlive: returns <<epoch', prev', isInit', lastSyncTime', backupVal', backupWrites'>>
 SyncNow(v, t, e1, p1) ==
    IF e1 = v THEN <<e1, p1, isInit, v, backupVal, backupWrites>>
@@ -106,7 +107,7 @@ BackupValue == [][backupWrites' # backupWrites => backupVal' = refVal']_vars
 \* an invalid or timed-out request never changes the clock or its last-sync time
 NoCorrupt == [][ev' \in {"invalid", "timeout", "waiting", "send", "ok", "wait", "noref"} =>
                   (lastSyncTime' = lastSyncTime /\ backupWrites' = backupWrites /\ isInit' = isInit
-                   /\ (isInit => epoch' = epoch + ((now' - prev) \div 1000)))]_vars
+                   /\ (isInit /\ now' - prev < 65536 => epoch' = epoch + ((now' - prev) \div 1000)))]_vars
 \* consecutive requests are separated by at least the retry period in force
 Separation == [][(ev' = "send" /\ lastReqAt >= 0) => now' - lastReqAt >= 1000 * needGap]_vars
 \* the retry period: initial period doubling per failure up to the sync period, the sync period after a success
@@ -118,7 +119,7 @@ BoundedResponse == (Mode # "none" /\ lastReqAt >= 0) => now - lastReqAt <= 1000 
 \* with no reference clock it only keeps time
 NoReferenceOnlyKeepsTime == Mode = "none" => /\ requests = 0 /\ status = "Ready" /\ lastSyncTime = Preset
                                              /\ backupWrites = (IF Preset # PresetNone THEN 1 ELSE 0)
-                                             /\ (isInit => epoch = Preset + (prev \div 1000) /\ now - prev < 1000)   \* time is kept: folded at every loop()
+                                             /\ (isInit /\ MaxStep < 65536 => epoch = Preset + (prev \div 1000) /\ now - prev < 1000)   \* time is kept: folded at every loop()
 \* one request per Ready -> Sent transition, none otherwise
 RequestCount == [][requests' # requests <=> ev' = "send"]_vars
 
